@@ -45,9 +45,10 @@ def layout_of(cmd):
         # shrink or stretch the domain it is tested on
         absmask = field_bits(mask, off, n)
         start = 8 * n - absmask.bit_length()
-        best = max(std, key=lambda f: max(0, min(start + w, f[0] + f[1]) - max(start, f[0])), default=None)
-        if best is not None and min(start + w, best[0] + best[1]) - max(start, best[0]) > 0:
-            w = best[1]
+        over = [f for f in std if min(start + w, f[0] + f[1]) - max(start, f[0]) > 0]
+        if over:
+            # (a class field may cover several adjacent fields of the model, e.g. the ATA LBA bytes)
+            w = max(w, max(f[0] + f[1] for f in over) - min(f[0] for f in over)) if len(over) > 1 else over[0][1]
         out[k] = (mask, off, w)
     return out
 
